@@ -12,13 +12,13 @@ MANIFEST = {
     "design_ref": "DESIGN.md 3/C17",
     "level_text": "CBMC decides: (1) TimeDelta +, -, unary -, * i32 satisfy a+b-b=a, a-b+b=a, a-b=a+(-b), a+(-a)=0, -(-a)=a, a+0=a, "
                   "associativity and commutativity for all |months|<=1200, |secs|<=2^40 (2^50 thorough) and every sub-second part; "
-                  "their results are the exact normal-form values (sum/difference/negation with carry, a*k for |k|<=8 and |secs|<=2^20 "
+                  "their results are the exact normal-form values (sum/difference/negation with carry, a*k for |k|<=8 and |secs|<=2^40 "
                   "as secs*k + floor(nanos*k/1e9), (nanos*k) mod 1e9); direct distributivity (a+b)*k=a*k+b*k for |k|<=8 on |secs|<=64 "
                   "with sub-second part 0 or 0.5 s (thorough: whole seconds up to 2^20); "
                   "(2) all five Time constructors build (h*3600+m*60+s)*1e9+sub for every in-range component; a time built from "
-                  "(h,m,s,nano) reports exactly these through hour()/minute()/second()/nanosecond(), Time->NaiveTime->Time and "
-                  "NaiveTime->Time->NaiveTime are identities — for every nanosecond of the first and the last 2048 seconds of the day "
-                  "(thorough: the whole day in twelve 2-hour blocks); "
+                  "(h,m,s,nano) reports exactly these through hour()/minute()/second()/nanosecond() and NaiveTime->Time->NaiveTime is "
+                  "the identity for every nanosecond of the first and the last 2048 seconds of the day (thorough: the whole day in "
+                  "twelve 2-hour blocks); Time->NaiveTime->Time is the identity for every nanosecond of the whole day; "
                   "(3) Time +- month-free TimeDelta is exact i64 nanosecond arithmetic for every time of day, |duration| <= 86400 s "
                   "(every sub-second part, both signs) whenever the result is inside the day, and (t+d)-d = t, (t-d)+d = t; "
                   "(4) DateTime<U> +- TimeDelta with months != 0 makes exactly one chrono Months call, forward shifts add and backward "
@@ -40,11 +40,12 @@ def check(v, tier, opts):
         "chrono::TimeDelta::{new,checked_add,checked_sub,checked_mul,neg,num_seconds,subsec_nanos,num_nanoseconds} (executed, not stubbed)",
     ])
     v.bounds.append("TimeDelta group laws: |months| <= 1200, |secs| <= 2^40 quick / 2^50 thorough, 0 <= nanos < 1e9 (all)")
-    v.bounds.append("TimeDelta * k: |k| <= 8, |secs| <= 2^20 (value law); direct distributivity |secs| <= 64 with sub-second "
+    v.bounds.append("TimeDelta * k: |k| <= 8, |secs| <= 2^40 (value law); direct distributivity |secs| <= 64 with sub-second "
                     "part in {0, 0.5 s} (quick), plus whole seconds |secs| <= 2^20 (thorough)")
     v.bounds.append("Time constructors: every h<24, m<60, s<60 and every in-range milli/micro/nano part (value laws, whole day)")
-    v.bounds.append("Time getters and NaiveTime round trips: every nanosecond of seconds-of-day 0..2048 and 84352..86400 (quick); "
-                    "whole day in twelve 2-hour blocks (thorough) — SAT cost of the division by 1e9 grows with the number of seconds")
+    v.bounds.append("Time -> NaiveTime -> Time: every nanosecond of the whole day (twelve 2-hour blocks); Time getters and NaiveTime -> "
+                    "Time -> NaiveTime: every nanosecond of seconds-of-day 0..2048 and 84352..86400 (quick), whole day in twelve "
+                    "2-hour blocks (thorough) — SAT cost of the division by 1e9 grows with the number of seconds")
     v.bounds.append("Time +- TimeDelta: every time of day 0..86400 s (every ns), month-free durations with |secs| <= 86400 and every "
                     "sub-second part, asserted when the exact result lies inside the day")
     v.bounds.append("month dispatch: months any i32 except 0 and i32::MIN (NaT); instant concrete (one per unit, two of them before "
